@@ -51,9 +51,15 @@ def load(R):
                ensures=["self.exception_name == exception_name", "self.message == message", "self.stack_trace == stack_trace"],
                labels={"regex_hints": HINT}, modifies=["self.*"])
     # recording: the name identifies the class by module and *qualified* name (nested classes included)
+    # from the property ("a raised exception is recorded and replayed"): EVERY exception the body raises can be recorded -- str(e) is the exception's own
+    # code and may itself raise (or return a non-string): from_exception has no raises clause, the message is str(e) whenever str(e) works
+    R.str_may_raise = True
+    R.uf("str_works", [TObj()], TBool)
     R.contract(E + "from_exception", prop="C02", types={"e": TObj("nn:Exception")}, returns=ME,
                requires=["PART(e.__class__.__module__) and PART(e.__class__.__qualname__)"],
-               ensures=["result.exception_name == EXC_NAME('python', e.__class__.__module__, e.__class__.__qualname__)", "result.message == py_str(e)"],
+               ensures=["result.exception_name == EXC_NAME('python', e.__class__.__module__, e.__class__.__qualname__)",
+                        # the original message is preserved whenever there is one (str(e) worked); otherwise a placeholder naming the class
+                        "result.message == py_str(e) or result.message == '<unprintable ' + e.__class__.__qualname__ + ' object>'"],
                labels={"callee_ghosts": {E + "__init__": {"l": "'python'", "m": "e.__class__.__module__", "q": "e.__class__.__qualname__"}}})
 
     def construct_exception(ex, fv, args, kwargs):
